@@ -648,6 +648,55 @@ pub fn subsets(out: &str, mode: &str, sample: u64, budget_secs: u64) {
     println!("{}", json!({"covered": covered, "total": masks.len(), "secs": t0.elapsed().as_secs()}));
 }
 
+/// `pin-idrace <out> <rounds>`: hardware instances created at the same moment on 4 threads (the situation fake hardware
+/// exists for: parallel tests, each with its own instance).  One fresh thread then walks over all of them in turn: observe
+/// (nothing was ever pinned through this instance on this thread), pin through it, observe.  Ordinary reset / start / obs /
+/// pin records, judged by Trace_Pinning: an instance that answers from another instance's pin is rejected.
+pub fn idrace(out: &str, rounds: usize) {
+    const THREADS: usize = 4;
+    const PER: usize = 48;
+    let tr = Tracer::create(out);
+    let aff0 = libc_affinity();
+    for _ in 0..rounds {
+        let barrier = Arc::new(std::sync::Barrier::new(THREADS));
+        let mut hs = Vec::new();
+        for w in 0..THREADS {
+            let (b, aff) = (barrier.clone(), aff0.clone());
+            hs.push(thread::spawn(move || {
+                b.wait();
+                (0..PER).map(|_| fake_hw(0, &[(0, 0), (1, (w % 2) as u32), (2, 1)], aff.clone())).collect::<Vec<Hw>>()
+            }));
+        }
+        let mut hws = Vec::new();
+        for h in hs {
+            hws.extend(h.join().unwrap());
+        }
+        for (i, x) in hws.iter_mut().enumerate() {
+            x.h = i as u32 + 1;
+        }
+        let hws = Arc::new(hws);
+        tr.emit(&json!({"ev":"reset","hw":hws.iter().map(hw_json).collect::<Vec<_>>(),"aff0":aff0}));
+        let hws2 = hws.clone();
+        let ev = thread::spawn(move || {
+            let t = 1u32;
+            let mut ev = vec![json!({"ev":"start","t":t,"aff":libc_affinity()})];
+            for (i, x) in hws2.iter().enumerate() {
+                ev.push(observe(x, t));
+                let ids: Vec<u32> = if i % 4 == 3 { vec![0, 2] } else { vec![(i % 3) as u32] };
+                let (y, ids1) = (x.clone(), ids.clone());
+                let r = vrt::catch(move || set_of(&y, &ids1).pin_current_thread_to());
+                ev.push(json!({"ev":"pin","t":t,"h":x.h,"s":ids,"panic":r.err().unwrap_or_default()}));
+                ev.push(observe(x, t));
+            }
+            ev
+        })
+        .join()
+        .unwrap();
+        emit_block(&tr, &ev);
+    }
+    tr.flush();
+}
+
 /// 8 worker threads re-pin themselves concurrently, each through its own slice of the subsets.
 fn subsets_segment(tr: &Tracer, masks: &[u32], aff0: &[u32], fake_procs: &[(u32, u32)]) {
     let n = aff0.len();
